@@ -53,7 +53,7 @@ func addSpec(s *Spec) {
 }
 
 var portfolioMain = []string{"p1", "p2", "p3", "p4", "p5", "p8"}
-var portfolioAll = []string{"p1", "p2", "p3", "p4", "p5", "p6", "p7", "p8", "p9"}
+var portfolioAll = []string{"p1", "p10", "p11", "p2", "p3", "p4", "p5", "p6", "p7", "p8", "p9"}
 
 func init() {
 	addSpec(&Spec{ID: "C01", Title: "write-then-read returns exactly the records added", Level: "exploration",
@@ -125,14 +125,16 @@ func init() {
 	})
 	addSpec(&Spec{ID: "C11", Title: "a truncated file is never accepted", Level: "fault_enumeration",
 		Shapes: portfolioMain,
-		Rule: "files as C08 (0.3-6 KiB): EVERY strict prefix (length 0..len-1) is opened and iterated; thorough adds 20-60 KiB files with every cut in the last 4 KiB, every page boundary +-8 bytes and 1500 seeded interior cuts; " +
-			"oracle = constructor or Error() reports an error, no panic; distinct = (file, cut); non-trivial = cut inside footer, trailer, page header, page body, at a page boundary or between row groups",
-		Require:    []string{"cut_footer", "cut_footer_length", "cut_trailer_magic", "cut_page_header", "cut_page_body", "cut_between_row_groups", "cut_page_boundary"},
+		Rule: "EVERY strict prefix (length 0..len-1) of: the C08 workload files (0.3-12 KiB, 3 codecs), one ~180 KiB uncompressed file (byte patterns that look like footer lengths beyond one I/O buffer), " +
+			"reference-written files whose footer tail reads as a plausible footer length (created_by chosen accordingly), and files whose string VALUES embed the footer of a shorter version of the same file followed by 8 arrangements of length words and magic; " +
+			"plus the 1..8-byte tail cuts of ~800 tiny files of varying footer size; thorough adds 20-60 KiB files with targeted cuts; oracle = constructor or Error() reports an error, no panic — except for prefixes that the reference parser finds to be valid files by themselves (not judged); " +
+			"distinct = (file, cut); non-trivial = cut inside footer, trailer, page header, page body, at a page boundary or between row groups",
+		Require:    []string{"cut_footer", "cut_footer_length", "cut_trailer_magic", "cut_page_header", "cut_page_body", "cut_between_row_groups", "cut_page_boundary", "big_file_cuts", "resonant_footer_cuts", "embedded_footer_cuts", "trailer_files"},
 		Exhaustive: func(r *Run) bool { return true },
 		Extra: func(r *Run, cov map[string]interface{}) {
 			cov["exhaustive_note"] = "exhaustive over prefix lengths for every small file; large files (thorough) use the targeted cut set"
 		},
-		Assumptions: []string{"string values written by the workload never embed a complete Parquet file (a prefix ending in an embedded valid file is indistinguishable from a complete file)"},
+		Assumptions: []string{"a prefix that is by itself a well-formed Parquet file according to the reference parser (possible only when values embed footer + length + magic) is indistinguishable from a complete file and is not judged"},
 	})
 	addSpec(&Spec{ID: "C04", Title: "the reader decodes every conformant file of the supported subset", Level: "exploration",
 		Shapes: portfolioMain,
@@ -198,7 +200,7 @@ func init() {
 			"family 2: the driver built with -race and the real bytebufferpool, G goroutines x N iterations each over own instances with Gosched/sleep injected at sink writes, outputs compared with sequential references, race reports counted from GORACE logs; " +
 			"family 3: the same against a shadow allocator replacing bytebufferpool (poison on Put, quarantine, poison verified on Get, stale capacity visible); " +
 			"distinct = (history, polluter) and interleaving signatures (goroutine switch sequence between sink writes); non-trivial = every repeated history; interleavings with >= 1 switch",
-		Require: []string{"family1_runs", "race_detector_processes", "shadow_allocator_processes", "shadow_cross_goroutine_handovers", "goroutine_switches_between_sink_writes", "repeated_histories", "shadow_reuses"},
+		Require: []string{"family1_runs", "race_detector_processes", "shadow_allocator_processes", "shadow_cross_goroutine_handovers", "goroutine_switches_between_sink_writes", "repeated_histories", "shadow_reuses", "histories_compared_across_processes"},
 		RequireFn: func(r *Run) []string {
 			if r.M.Maxes["max_instances_in_flight"] < 2 {
 				return []string{"no two instances were ever in flight at the same time"}
